@@ -196,4 +196,162 @@ theorem apiArg_unsigned (name : String) (w : Width) (v : Int) :
         simp [IntType.wrap, IntType.bits, IntType.readsSigned, Width.bits, Width.bytes, CInt.wrap, wrapS, wrapU]
       simp [hr, e1]
 
+theorem toCBool_eq (v : Int) :
+    toCBool v = if v = 0 then (0, none) else if v = 1 then (1, none) else (1, some .overflow) := by
+  unfold toCBool
+  rcases myAsLongLong_cases v with ⟨h1, h2, e⟩ | ⟨h, e⟩
+  · rw [e]
+  · rw [e]
+    have h0 : ¬ v = 0 := by omega
+    have h1 : ¬ v = 1 := by omega
+    simp [h0, h1]
+
+theorem apiArg_bool (name : String) (w : Width) (v : Int) :
+    apiArg ⟨name, w, .bool⟩ v =
+      if 0 ≤ v ∧ v ≤ 1 then .ok (writeRaw v w) else .error .overflow := by
+  simp only [apiArg, toCBool_eq]
+  by_cases h0 : v = 0
+  · subst h0; simp
+  · by_cases h1 : v = 1
+    · subst h1; simp
+    · have : ¬ (0 ≤ v ∧ v ≤ 1) := by omega
+      simp [h0, h1, this]
+
+
+theorem inRange_in64 (T : IntType) (v : Int) (h : T.InRange v) : -(2 ^ 63) ≤ v ∧ v < 2 ^ 64 ∧
+    (T.kind = .signed → v < 2 ^ 63) := by
+  rcases T with ⟨name, w, k⟩
+  cases k <;> cases w <;>
+    simp [IntType.InRange, IntType.lo, IntType.hi, IntType.bits, Width.bits, Width.bytes] at h ⊢ <;> omega
+
+theorem fficallback_reject (T : IntType) (hT : T.isInt = true) (result : List UInt8) (v : Int) (encode : Bool)
+    (h : ¬ T.InRange v) : (fficallbackConvert T result v encode).2 = .error .overflow := by
+  unfold fficallbackConvert
+  by_cases hc : T.bytes < ffiArgBytes ∧ encode = true
+  · rw [if_pos hc]
+    rcases T with ⟨name, w, k⟩
+    cases k <;> simp only [convert_eq _ hT, h, if_false]
+  · rw [if_neg hc]
+    simp only [convert_eq _ hT, h, if_false]
+
+theorem writeRaw64_take (v : Int) (w : Width) : (writeRaw v .w64).take w.bytes = writeRaw v w := by
+  unfold writeRaw
+  exact toLE_take _ _ _ (by cases w <;> simp [Width.bytes])
+
+theorem writeRaw_zext (v : Int) (w : Width) (h : 0 ≤ v ∧ v < 2 ^ w.bits) :
+    writeRaw v w ++ List.replicate (8 - w.bytes) 0 = writeRaw v .w64 := by
+  unfold writeRaw
+  have hlt : (wrapU 64 v).toNat < 256 ^ w.bytes := by
+    unfold wrapU
+    cases w <;> simp [Width.bits, Width.bytes] at h ⊢ <;> omega
+  have := toLE_extend w.bytes (8 - w.bytes) _ hlt
+  have e : w.bytes + (8 - w.bytes) = Width.w64.bytes := by cases w <;> rfl
+  rw [e] at this
+  exact this.symm
+
+theorem fficallback_accept (T : IntType) (hT : T.isInt = true) (result : List UInt8) (v : Int) (encode : Bool)
+    (h : T.InRange v) :
+    (fficallbackConvert T result v encode).2 = .ok () ∧
+    ((fficallbackConvert T result v encode).1).take T.bytes = writeRaw v T.width ∧
+    (T.bytes < ffiArgBytes → encode = true →
+      ((fficallbackConvert T result v encode).1).take ffiArgBytes = writeRaw v .w64) := by
+  have hb : T.bytes = (writeRaw v T.width).length := by rw [writeRaw_length]; rfl
+  unfold fficallbackConvert
+  by_cases hc : T.bytes < ffiArgBytes ∧ encode = true
+  · rw [if_pos hc]
+    rcases T with ⟨name, w, k⟩
+    have hw8 : w.bytes ≤ 8 := by cases w <;> simp [Width.bytes]
+    have hz : ∀ (hr : 0 ≤ v ∧ v < 2 ^ w.bits),
+        List.take ffiArgBytes (poke (poke result (List.replicate ffiArgBytes 0)) (writeRaw v w)) =
+          writeRaw v Width.w64 := by
+      intro hr
+      have := poke_zeros_take result (writeRaw v w) ffiArgBytes (by rw [writeRaw_length]; exact hw8)
+      rw [this, writeRaw_length]
+      exact writeRaw_zext v w hr
+    cases k
+    · -- signed: a first conversion to detect overflow, then the whole ffi_arg
+      have h64 := inRange_in64 _ v h
+      have e : myAsLongLong v = (v, none) := by
+        rcases myAsLongLong_cases v with ⟨_, _, e⟩ | ⟨hn, _⟩
+        · exact e
+        · exact absurd ⟨h64.1, h64.2.2 rfl⟩ hn
+      simp only [convert_eq _ hT, h, if_true, e, ite_self]
+      refine ⟨rfl, ?_, fun _ _ => ?_⟩
+      · show List.take w.bytes (poke _ (writeRaw v .w64)) = writeRaw v w
+        rw [poke_take_le _ _ _ (by rw [writeRaw_length]; exact hw8), writeRaw64_take]
+      · have : ffiArgBytes = (writeRaw v .w64).length := by rw [writeRaw_length]; rfl
+        rw [this, poke_take]
+    · simp only [convert_eq _ hT, h, if_true]
+      refine ⟨trivial, ?_, fun _ _ => ?_⟩
+      · rw [hb, poke_take]
+      · exact hz (by
+          cases w <;> simp [IntType.InRange, IntType.lo, IntType.hi, IntType.bits, Width.bits, Width.bytes] at h ⊢ <;> omega)
+    · simp only [convert_eq _ hT, h, if_true]
+      refine ⟨trivial, ?_, fun _ _ => ?_⟩
+      · rw [hb, poke_take]
+      · exact hz (by
+          cases w <;> simp [IntType.InRange, IntType.lo, IntType.hi, IntType.bits, Width.bits, Width.bytes] at h ⊢ <;> omega)
+    · simp [IntType.isInt] at hT
+    · simp [IntType.isInt] at hT
+  · rw [if_neg hc]
+    simp only [convert_eq _ hT, h, if_true]
+    refine ⟨trivial, ?_, fun h1 h2 => absurd ⟨h1, h2⟩ hc⟩
+    rw [hb, poke_take]
+
+theorem convert_length (T : IntType) (hT : T.isInt = true) (data : List UInt8) (v : Int)
+    (hl : T.bytes ≤ data.length) : (convertFromObject T data v).1.length = data.length := by
+  rw [convert_eq T hT]
+  by_cases h : T.InRange v
+  · simp only [h, if_true]
+    exact poke_length _ _ (by rw [writeRaw_length]; exact hl)
+  · simp [h]
+
+theorem bytes_le_ffiArg (T : IntType) : T.bytes ≤ ffiArgBytes := by
+  rcases T with ⟨n, w, k⟩; cases w <;> simp [IntType.bytes, Width.bytes, ffiArgBytes]
+
+theorem fficallback_length (T : IntType) (hT : T.isInt = true) (result : List UInt8) (v : Int) (encode : Bool)
+    (hl : ffiArgBytes ≤ result.length) :
+    (fficallbackConvert T result v encode).1.length = result.length := by
+  have hb := bytes_le_ffiArg T
+  unfold fficallbackConvert
+  split
+  · rcases T with ⟨name, w, k⟩
+    cases k
+    · simp only
+      have h1 := convert_length ⟨name, w, .signed⟩ hT result v (by omega)
+      generalize convertFromObject ⟨name, w, .signed⟩ result v = p at h1 ⊢
+      rcases p with ⟨r1, o⟩
+      cases o with
+      | error e => exact h1
+      | ok u =>
+        simp only
+        split
+        · exact h1
+        · simp only at h1
+          rw [poke_length _ _ (by rw [writeRaw_length]; simp [Width.bytes, ffiArgBytes] at hl ⊢; omega)]
+          exact h1
+    all_goals
+      simp only
+      have hz : (poke result (List.replicate ffiArgBytes 0)).length = result.length :=
+        poke_length _ _ (by simpa using hl)
+      rw [convert_length _ hT _ _ (by omega), hz]
+  · exact convert_length T hT result v (by omega)
+
+theorem prepareRawErr_some (T : IntType) (hT : T.isInt = true) (ev : Int) (encode : Bool) :
+    prepareRawErr T (some ev) encode =
+      if T.InRange ev then .ok (fficallbackConvert T (List.replicate (max T.bytes ffiArgBytes) 0) ev encode).1
+      else .error .overflow := by
+  unfold prepareRawErr
+  by_cases h : T.InRange ev
+  · have ha := (fficallback_accept T hT (List.replicate (max T.bytes ffiArgBytes) 0) ev encode h).1
+    rcases hp : fficallbackConvert T (List.replicate (max T.bytes ffiArgBytes) 0) ev encode with ⟨r, o⟩
+    rw [hp] at ha
+    simp only at ha; subst ha
+    simp [h, hp]
+  · have hr := fficallback_reject T hT (List.replicate (max T.bytes ffiArgBytes) 0) ev encode h
+    rcases hp : fficallbackConvert T (List.replicate (max T.bytes ffiArgBytes) 0) ev encode with ⟨r, o⟩
+    rw [hp] at hr
+    simp only at hr; subst hr
+    simp [h, hp]
+
 end CffiVerif.IntPaths
